@@ -203,6 +203,10 @@ def fits_identity(ck, g, old, new, M, s, plane, gplane, hist, rec, own):
 
 def fits_case(ck, I, rng, t):
     g = G.gen_fits_geom(rng, t)
+    if t % 5 == 3:
+        # look-up-table distortions that do not vanish at the reference pixel
+        g = dict(g, lut=G.gen_lut(rng))
+    ck.count('fits_lookup_table_distortion', (g.get('lut') or {}).get('which', 'none'))
     c = G.fits_corrector(I, g)
     c_built = c.copy()
     hist = []
